@@ -168,6 +168,8 @@ def check(ctx):
     # tacd exit before serving anything for that key type)
     from .crypto_tables import parse_tables
     parse_tables(ctx, R4, only=("acme_common::crypto::key_type::KeyType", "acme_common::crypto::BaseHashFunction"))
+    from .crypto_tables import listed_values_rule
+    listed_values_rule(ctx, R4)
     R5 = ctx.rule("R5", "gen_certificate: one dNSName SAN = domain; extension from the name=value split; subject = issuer; same key for pubkey and signature; validity now..now+N days, N > 0")
     g = prog.must_body(GEN)
     san_new = g.calls_to("openssl::x509::extension::SubjectAlternativeName::new")
@@ -237,6 +239,11 @@ def check(ctx):
     iss = g.calls_to("openssl::x509::X509Builder::set_issuer_name")
     ok_ = bool(sub) and bool(iss) and all(arg_origins(a, 1).locals & arg_origins(b_, 1).locals for a in sub for b_ in iss)
     ctx.require(R5, ok_, "%s:%s" % (g.file, g.line), "subject and issuer are the same name (self-signed)", [GEN, "self-signed-name"])
+    # the name only identifies tacd: no entry of it comes from the validated domain (X.509 name attributes have small upper bounds —
+    # commonName 64 — so a domain copied there makes gen_certificate fail for long names; the domain belongs in the SAN)
+    for c_ in [x for x in g.calls if x.bb in g.live_blocks() and (x.name or "").startswith("openssl::x509::X509NameBuilder::append_entry")]:
+        from_domain = any(arg_origins(c_, k_).has_leaf("param:1") for k_ in range(1, len(c_.args)))
+        ctx.require(R5, not from_domain, c_.where(), "no subject/issuer name entry is built from the domain parameter", [GEN, "name-from-domain"])
     pk = g.calls_to("openssl::x509::X509Builder::set_pubkey")
     sg = g.calls_to("openssl::x509::X509Builder::sign")
     for c_ in pk + sg:
